@@ -150,10 +150,22 @@ def coq_files():
     return sorted(res)
 
 
-def coq_lint():
-    """No Admitted/admit/Axiom/Parameter/... anywhere; Variable/Hypothesis only inside a Section."""
+def coq_deps(prop):
+    """The .v files Props/<prop>.v transitively depends on (itself included), plus the extraction files."""
+    rc, out = run(["coqdep", "-Q", ".", "RH", "-sort", "Props/%s.v" % prop], cwd=COQ, timeout=300)
+    files = [os.path.join(COQ, f) for f in out.split() if f.endswith(".v") and os.path.exists(os.path.join(COQ, f))]
+    ex = os.path.join(OCAML, "extract")
+    if os.path.isdir(ex):
+        files += [os.path.join(ex, f) for f in sorted(os.listdir(ex)) if f.endswith(".v") and f.lower().startswith(prop.lower())]
+    return files
+
+
+def coq_lint(prop=None):
+    """No Admitted/admit/Axiom/Parameter/... anywhere; Variable/Hypothesis only inside a Section.
+    With `prop`: only the files that property's theorems depend on (other properties' work in progress
+    must not disturb this check); without: every .v file of the development."""
     problems = []
-    for path in coq_files():
+    for path in (coq_deps(prop) if prop else coq_files()):
         text = strip_coq_comments(open(path, encoding="utf-8").read())
         depth = 0
         for lineno, line in enumerate(text.split("\n"), 1):
@@ -372,7 +384,7 @@ def proof_stage(res, prop, extra_targets=(), thorough=False):
     """Stage 1 of every check: theorems build, lint, assumptions. Fills res.coverage proof keys.
     Returns True when all obligations are discharged."""
     ok_all = True
-    problems = coq_lint()
+    problems = coq_lint(prop)
     if problems:
         res.violation("Coq source lint failed: " + "; ".join(problems[:5]),
                       {"kind": "theorem", "theorem": "source-lint", "detail": problems}, no_failing_input=True)
